@@ -395,3 +395,76 @@ vt_proof! { unwind = 11; fn c26_vec_int_float_order() {
     kani::cover!(x < 0.0 && y < 0.0 && x < y, "w:both_negative_floats");
     core::mem::forget((ka, kb, kx, ky));
 }}
+
+// ---------------------------------------------------------------- thorough tier: longer strings
+// @vt prop=C26 tier=quick bound="all pairs of byte strings of length 0..=4 (every byte value): blob key order, injectivity, prefix-freeness" outside="strings longer than 4 bytes (thorough: 7)" timeout=1800
+vt_proof! { unwind = 14; fn c26_blob_order_prefixfree_len4() {
+    let a: [u8; 4] = kani::any(); let b: [u8; 4] = kani::any();
+    let (an, bn): (usize, usize) = (kani::any(), kani::any()); kani::assume(an <= 4 && bn <= 4);
+    let mut ka = FixBuf::<12>::new(); let mut kb = FixBuf::<12>::new();
+    encode_blob(&a[..an], &mut ka); encode_blob(&b[..bn], &mut kb);
+    let c = lex_cmp(ka.as_slice(), kb.as_slice());
+    let e = lex_cmp(&a[..an], &b[..bn]);
+    kani::cover!(an == 4 && bn == 4 && a[3] == 0xFF && b[3] == 0x00 && a[0] == b[0] && a[1] == b[1] && a[2] == b[2], "w:differ_in_last_byte_ff_vs_00");
+    assert!(c == e, "role=blob_order_preserved");
+    assert!((c == Equal) == (e == Equal), "role=blob_injective");
+    if e != Equal {
+        let (s, l) = if ka.n <= kb.n { (&ka, &kb) } else { (&kb, &ka) };
+        let mut i = 0; let mut is_prefix = true;
+        while i < s.n { if s.b[i] != l.b[i] { is_prefix = false; } i += 1; }
+        assert!(!is_prefix, "role=blob_prefix_free");
+    }
+}}
+
+// @vt prop=C26 tier=quick bound="all pairs of 3-column keys (i64, blob 0..=1 byte, i64)" outside="more columns; longer blobs" timeout=1800
+vt_proof! { unwind = 26; fn c26_composite_three_columns() {
+    let (a1, b1, a3, b3): (i64, i64, i64, i64) = (kani::any(), kani::any(), kani::any(), kani::any());
+    let ba: [u8; 1] = kani::any(); let bb: [u8; 1] = kani::any();
+    let (an, bn): (usize, usize) = (kani::any(), kani::any()); kani::assume(an <= 1 && bn <= 1);
+    let mut ka = FixBuf::<24>::new(); let mut kb = FixBuf::<24>::new();
+    encode_int(a1, &mut ka); encode_blob(&ba[..an], &mut ka); encode_int(a3, &mut ka);
+    encode_int(b1, &mut kb); encode_blob(&bb[..bn], &mut kb); encode_int(b3, &mut kb);
+    let first = a1.cmp(&b1);
+    let second = lex_cmp(&ba[..an], &bb[..bn]);
+    let expect = if first != Equal { first } else if second != Equal { second } else { a3.cmp(&b3) };
+    kani::cover!(first == Equal && second == Equal && a3 != b3, "w:decided_by_third_column");
+    assert!(lex_cmp(ka.as_slice(), kb.as_slice()) == expect, "role=composite_columnwise_order");
+}}
+
+// @vt prop=C26 tier=quick bound="all pairs of byte strings of length 0..=7 (every byte value): blob key order, injectivity, prefix-freeness" outside="strings longer than 7 bytes (thorough: 12)" timeout=1800
+vt_proof! { unwind = 20; fn c26_blob_order_prefixfree_len7() {
+    let a: [u8; 7] = kani::any(); let b: [u8; 7] = kani::any();
+    let (an, bn): (usize, usize) = (kani::any(), kani::any()); kani::assume(an <= 7 && bn <= 7);
+    let mut ka = FixBuf::<18>::new(); let mut kb = FixBuf::<18>::new();
+    encode_blob(&a[..an], &mut ka); encode_blob(&b[..bn], &mut kb);
+    let c = lex_cmp(ka.as_slice(), kb.as_slice());
+    let e = lex_cmp(&a[..an], &b[..bn]);
+    kani::cover!(an == 7 && bn == 6, "w:long_strings");
+    assert!(c == e, "role=blob_order_preserved");
+    assert!((c == Equal) == (e == Equal), "role=blob_injective");
+    if e != Equal {
+        let (s, l) = if ka.n <= kb.n { (&ka, &kb) } else { (&kb, &ka) };
+        let mut i = 0; let mut is_prefix = true;
+        while i < s.n { if s.b[i] != l.b[i] { is_prefix = false; } i += 1; }
+        assert!(!is_prefix, "role=blob_prefix_free");
+    }
+}}
+
+// @vt prop=C26 tier=thorough bound="all pairs of byte strings of length 0..=12 (every byte value): blob key order, injectivity, prefix-freeness" outside="strings longer than 12 bytes" timeout=5400 mem=30
+vt_proof! { unwind = 30; fn c26_blob_order_prefixfree_len12() {
+    let a: [u8; 12] = kani::any(); let b: [u8; 12] = kani::any();
+    let (an, bn): (usize, usize) = (kani::any(), kani::any()); kani::assume(an <= 12 && bn <= 12);
+    let mut ka = FixBuf::<28>::new(); let mut kb = FixBuf::<28>::new();
+    encode_blob(&a[..an], &mut ka); encode_blob(&b[..bn], &mut kb);
+    let c = lex_cmp(ka.as_slice(), kb.as_slice());
+    let e = lex_cmp(&a[..an], &b[..bn]);
+    kani::cover!(an == 12 && bn == 11, "w:long_strings");
+    assert!(c == e, "role=blob_order_preserved");
+    assert!((c == Equal) == (e == Equal), "role=blob_injective");
+    if e != Equal {
+        let (s, l) = if ka.n <= kb.n { (&ka, &kb) } else { (&kb, &ka) };
+        let mut i = 0; let mut is_prefix = true;
+        while i < s.n { if s.b[i] != l.b[i] { is_prefix = false; } i += 1; }
+        assert!(!is_prefix, "role=blob_prefix_free");
+    }
+}}
